@@ -606,12 +606,13 @@ def c6_uint(v, width=0):
 
 
 def interest_for(p):
-    """the Interest a Nack for pending entry `p` would enclose (its full expressed name)"""
-    from ndn import encoding as enc
-    name = enc.Name.from_str(p['n'])
+    """the Interest a Nack for pending entry `p` would enclose (its full expressed name); written with pktcommon's
+    packet writers, not with the library: it is an INPUT of the envelope decoder under judgement"""
+    import pktcommon as K
+    name = K.uri_to_comps(p['n'])
     if p['dg']:
-        name = name + [enc.Component.from_bytes(hashlib.sha256(c6.data_d0()).digest(), enc.Component.TYPE_IMPLICIT_SHA256)]
-    return bytes(enc.make_interest(name, enc.InterestParam(nonce=77, can_be_prefix=p['cbp'])))
+        name = name + [K.gen_comp(hashlib.sha256(c6.data_d0()).digest(), 1)]     # ImplicitSha256DigestComponent
+    return K.build_interest(name, nonce=77, can_be_prefix=p['cbp'])
 
 
 def shrink(case):
